@@ -3,6 +3,7 @@ export GOFLAGS=-mod=mod
 export GOPROXY=off
 export GOSUMDB=off
 export GOTOOLCHAIN=local
+export DBUS_SESSION_BUS_ADDRESS=unix:path=/nonexistent
 
 .PHONY: setup coq harness clean
 setup: coq harness
